@@ -110,6 +110,7 @@ def run_generated_tests(name, rows):
         m = re.match(r"^test (s\d+)::__nutype_\w+__::tests::(\w+) \.\.\. (ok|FAILED)", line)
         if m and m.group(1) in out:
             out[m.group(1)].append([m.group(2), m.group(3)])
+    run_generated_tests.rejected = dict(c.rejected)      # accepted by `cargo build`, but the test target does not compile
     return out
 
 
@@ -168,6 +169,15 @@ def check_C08():
     verdicts = build_verdicts("c08", sel)
     g_rows = {k: sel[k] for k in sel if sel[k].get("g") and verdicts[k][0] == "accepted"}
     gen_tests = run_generated_tests("c08", g_rows)
+    for k, msgs in sorted(getattr(run_generated_tests, "rejected", {}).items()):
+        # an accepted, well-formed declaration must also be usable under `cargo test`: the unit tests the macro generates
+        # into the user's crate have to compile
+        if k in g_rows and g_rows[k]["class"] == "accept":
+            src = g_rows[k]["src"]
+            verdict.violation({"property": "C08", "decl": k, "family": src["fam"], "class": "accept", "verdict": "generated tests do not compile",
+                               "tag": "generated_tests_do_not_compile", "compiler_messages": msgs[:4], "declaration": decl_only(src),
+                               "summary": "%s: accepted, but the generated unit tests do not compile (%s) :: %s" % (
+                                   k, "; ".join(m[:100] for m in msgs[:1]), decl_only(src).strip().replace("\n", " ")[:220])})
     tdir = ensure_dir(os.path.join(WORK, "trace", "c08"))
     tp, dp = os.path.join(tdir, "trace.ndjson"), os.path.join(tdir, "decls.json")
     order = sorted(sel)
